@@ -670,10 +670,15 @@ void GridSequence::setAnisotropicRefinement(TypeDepth type, int min_growth, int 
     std::vector<int> weights;
     estimateAnisotropicCoefficients(type, output, weights);
 
+    // when every direction is limited and the top point allowed by the limits is present, no further growth is possible
+    auto saturated = [&]()->bool{
+        if (level_limits.empty() || std::any_of(level_limits.begin(), level_limits.end(), [](int l)->bool{ return (l < 0); })) return false;
+        return (!points.empty() && !points.missing(level_limits)) || (!needed.empty() && !needed.missing(level_limits));
+    };
     int level = 0;
     do{
         updateGrid(++level, type, weights, level_limits);
-    }while(getNumNeeded() < min_growth);
+    }while(getNumNeeded() < min_growth && !saturated());
 }
 void GridSequence::setSurplusRefinement(double tolerance, int output, const std::vector<int> &level_limits){
     clearRefinement();
